@@ -35,9 +35,16 @@ double AbstractHmmLikelihood::getFirstOrderDerivative(const std::string& variabl
   if (variable != dVariable_)
   {
     dVariable_ = variable;
-
-    hmmEmissionProbabilities().computeDEmissionProbabilities(dVariable_);
-    computeDLikelihood_();
+    try
+    {
+      hmmEmissionProbabilities().computeDEmissionProbabilities(dVariable_);
+      computeDLikelihood_();
+    }
+    catch (...)
+    {
+      dVariable_ = "";
+      throw;
+    }
   }
   return -dLogLik_;
 }
@@ -47,9 +54,16 @@ double AbstractHmmLikelihood::getSecondOrderDerivative(const std::string& variab
   if (variable != d2Variable_)
   {
     d2Variable_ = variable;
-
-    hmmEmissionProbabilities().computeD2EmissionProbabilities(d2Variable_);
-    computeD2Likelihood_();
+    try
+    {
+      hmmEmissionProbabilities().computeD2EmissionProbabilities(d2Variable_);
+      computeD2Likelihood_();
+    }
+    catch (...)
+    {
+      d2Variable_ = "";
+      throw;
+    }
   }
   return -d2LogLik_;
 }
